@@ -20,8 +20,13 @@ func PartialHelper(name string, data map[string]interface{}, help HelperContext)
 		help.Set(k, v)
 	}
 
-	pf, ok := help.Value("partialFeeder").(func(string) (string, error))
-	if !ok {
+	var pf func(string) (string, error)
+	switch f := help.Value("partialFeeder").(type) {
+	case func(string) (string, error):
+		pf = f
+	case PartialFeeder:
+		pf = f
+	default:
 		return "", fmt.Errorf("could not found partial feeder from helpers")
 	}
 
